@@ -85,6 +85,19 @@ Definition conv_model (inp : list N) : list N :=
             let e := if td_eqb a b then 1%N else 0%N in
             [e; e; 1%N; 1%N]
         end
+      else if (sub =? 4)%N then
+        (* From<view> over elements whose k-th Clone panics: outcome, elements dropped twice,
+           elements leaked.  The copy is built on the side: a panic drops what was cloned *)
+        match run_parser (C <~ p_nat ;; R <~ p_nat ;; s0 <~ p_N ;; s1 <~ p_N ;; e0 <~ p_N ;; e1 <~ p_N ;;
+                          m <~ p_bool ;; k <~ p_N ;; p_ret (C, R, (s0, s1, e0, e1), m, k)) rest with
+        | None => BAD_CASE
+        | Some (C, R, (s0, s1, e0, e1), m, k) =>
+            match view_of KOwned m (view_of_owned C R (C * R)) s0 s1 e0 e1 with
+            | Ok v => [(if (k <? N.of_nat (vcols v * vrows v))%N then 0 else 1)%N; 0%N; 0%N]
+            | Panic => [0%N; 0%N; 0%N]
+            | UB => [777771%N]
+            end
+        end
       else if (sub =? 3)%N then
         (* elements with a non-reflexive equality (f64): cell [nan - 1] holds a NaN.
            a == a (the same object), a != a, a == a.clone(), a == a rebuilt from its cells *)
